@@ -16,6 +16,7 @@ VERIF = os.path.dirname(os.path.dirname(os.path.abspath(__file__)))
 sys.path.insert(0, VERIF)
 
 RUNNER_PY = os.environ.get("VERIF_RUNNER_PY", "/venv/bin/python")
+OUT = os.environ.get("VERIF_OUT", VERIF)      # evidence/ and replays/ go here (seeded-change runs redirect it)
 
 
 def log(*a):
@@ -340,11 +341,11 @@ def finish(prop_id, tier, seed, t_start, exit_code=None, error=None, level="othe
         return exit_code
     ev = {"property_id": prop_id, "tier": tier, "seed": seed, "level": level, "coverage": coverage,
           "assumptions": assumptions or [], "wall_s": wall, "violations": len(violations)}
-    os.makedirs(os.path.join(VERIF, "evidence"), exist_ok=True)
-    with open(os.path.join(VERIF, "evidence", prop_id + ".json"), "w") as fh:
+    os.makedirs(os.path.join(OUT, "evidence"), exist_ok=True)
+    with open(os.path.join(OUT, "evidence", prop_id + ".json"), "w") as fh:
         json.dump(ev, fh, indent=1, default=str)
     if violations:
-        rdir = os.path.join(VERIF, "replays", prop_id)
+        rdir = os.path.join(OUT, "replays", prop_id)
         os.makedirs(rdir, exist_ok=True)
         for i, v in enumerate(violations[:20]):
             path = os.path.join(rdir, "violation_%02d.json" % i)
